@@ -158,14 +158,27 @@ Definition to_checked_array (declared : adt) (i : item) : res (list row) :=
   | IOther => Err E_NOT_ARRAY
   end.
 
+(* The two defects found by C12 (design_notes/C12.md F1, F2) and their repair in /repo:
+     F1  Plugin._fix_output did not compare the dtype of a returned Chunk with dtype_for()
+     F2  DownChunkingPlugin._fix_output compared neither the label nor the dtype of a yielded chunk
+   Every definition below takes `fx : bool` -- false = the code before the two `fix:` commits (kept
+   as the `pinned` behaviour, about which the `_refuted` theorems speak), true = the repaired code.
+   REPAIRED_F1F2 says which of the two /repo currently carries; the un-suffixed definitions
+   (fix_output_single, down_one, ...) are the model of the current code. *)
+Definition REPAIRED_F1F2 : bool := false.
+
 (* Plugin._fix_output for one data type (the part after the multi-output dispatch).
    range = Some (start, end) for plugins with dependencies, None for sources. *)
-Definition fix_output_single (p : pdecl) (i : item) (range : option (Z * Z)) (d : Z) : res xchunk :=
+Definition fix_output_single_gen (fx : bool) (p : pdecl) (i : item) (range : option (Z * Z)) (d : Z)
+  : res xchunk :=
   match i with
   | IMk declared dt label kind s e rows =>
-      (* the Chunk was constructed inside compute; _fix_output only compares the label *)
+      (* the Chunk was constructed inside compute; _fix_output compares the label and (repaired
+         code only) the dtype of the data with the declared one *)
       do c <- mk_xchunk declared dt s e rows label kind (Some (p_run p)) (p_tgt p);
-      if cdtype (xc c) =? d then Ok c else Err E_LABEL
+      if cdtype (xc c) =? d then
+        (if fx && negb (adt_eqb (xdt c) (dtype_for p d)) then Err E_WRONG_OUTPUT else Ok c)
+      else Err E_LABEL
   | _ =>
       match range with
       | None => Err E_SRC_NOT_CHUNK
@@ -176,7 +189,7 @@ Definition fix_output_single (p : pdecl) (i : item) (range : option (Z * Z)) (d 
       end
   end.
 
-Fixpoint fix_each (p : pdecl) (l : list (Z * item)) (range : option (Z * Z)) (ds : list Z)
+Fixpoint fix_each_gen (fx : bool) (p : pdecl) (l : list (Z * item)) (range : option (Z * Z)) (ds : list Z)
   : res (list xchunk) :=
   match ds with
   | [] => Ok []
@@ -184,22 +197,22 @@ Fixpoint fix_each (p : pdecl) (l : list (Z * item)) (range : option (Z * Z)) (ds
       match assoc d l with
       | None => Err E_KEY
       | Some i =>
-          do c <- fix_output_single p i range d;
-          do cs <- fix_each p l range rest;
+          do c <- fix_output_single_gen fx p i range d;
+          do cs <- fix_each_gen fx p l range rest;
           Ok (c :: cs)
       end
   end.
 
 (* Plugin._fix_output: one message = one chunk per provided data type, in `provides` order *)
-Definition fix_output (p : pdecl) (v : value) (range : option (Z * Z)) : res (list xchunk) :=
+Definition fix_output_gen (fx : bool) (p : pdecl) (v : value) (range : option (Z * Z)) : res (list xchunk) :=
   if multi_output p then
     match v with
-    | VDict l => fix_each p l range (p_provides p)
+    | VDict l => fix_each_gen fx p l range (p_provides p)
     | VItem _ => Err E_NOT_DICT
     end
   else
     match v, p_provides p with
-    | VItem i, d :: _ => do c <- fix_output_single p i range d; Ok [c]
+    | VItem i, d :: _ => do c <- fix_output_single_gen fx p i range d; Ok [c]
     | VDict l, d :: _ =>
         (* a dict for a single-output plugin is a dict of columns; its keys are data type names
            here, none of which is a field name *)
@@ -215,43 +228,69 @@ Definition build_item (p : pdecl) (i : item) : res (option xchunk) :=
   | _ => Ok None
   end.
 
-Fixpoint build_items (p : pdecl) (l : list (Z * item)) : res (list xchunk) :=
+(* the generator body builds every value of a yielded dict before _fix_output looks at it *)
+Fixpoint build_items (p : pdecl) (l : list (Z * item)) : res (list (Z * option xchunk)) :=
   match l with
   | [] => Ok []
-  | (_, i) :: rest =>
-      do oc <- build_item p i;
-      match oc with
-      | None => Err E_NOT_CHUNK
-      | Some c => do cs <- build_items p rest; Ok (c :: cs)
-      end
+  | (k, i) :: rest =>
+      do oc <- build_item p i; do cs <- build_items p rest; Ok ((k, oc) :: cs)
   end.
 
-(* DownChunkingPlugin._fix_output, one yielded value: no label and no dtype comparison *)
-Definition down_one (p : pdecl) (v : value) : res (list xchunk) :=
+(* repaired DownChunkingPlugin._fix_output: label and dtype of a yielded chunk *)
+Definition down_check (fx : bool) (p : pdecl) (d : Z) (c : xchunk) : res xchunk :=
+  if fx then
+    if cdtype (xc c) =? d then
+      (if adt_eqb (xdt c) (dtype_for p d) then Ok c else Err E_WRONG_OUTPUT)
+    else Err E_LABEL
+  else Ok c.
+
+Fixpoint down_checks (fx : bool) (p : pdecl) (l : list (Z * option xchunk)) : res (list xchunk) :=
+  match l with
+  | [] => Ok []
+  | (_, None) :: _ => Err E_NOT_CHUNK
+  | (k, Some c) :: rest => do c' <- down_check fx p k c; do cs <- down_checks fx p rest; Ok (c' :: cs)
+  end.
+
+(* DownChunkingPlugin._fix_output, one yielded value *)
+Definition down_one_gen (fx : bool) (p : pdecl) (v : value) : res (list xchunk) :=
   match v with
-  | VDict l => build_items p l
+  | VDict l =>
+      do built <- build_items p l;
+      if forallb (fun kc => match snd kc with Some _ => true | None => false end) built
+      then down_checks fx p built else Err E_NOT_CHUNK
   | VItem i =>
       do oc <- build_item p i;      (* the generator body runs first *)
       if multi_output p then Err E_GEN_NOT_DICT
-      else match oc with None => Err E_NOT_CHUNK | Some c => Ok [c] end
+      else match oc, p_provides p with
+           | None, _ => Err E_NOT_CHUNK
+           | Some c, d :: _ => do c' <- down_check fx p d c; Ok [c']
+           | Some c, [] => Err E_KEY
+           end
   end.
 
 (* A plugin invocation produces a list of messages, lazily: processing stops at the first Err *)
 Definition msgs := list (res (list xchunk)).
 
-Definition do_compute_out (p : pdecl) (pl : payload) (range : option (Z * Z)) : msgs :=
+Definition do_compute_out_gen (fx : bool) (p : pdecl) (pl : payload) (range : option (Z * Z)) : msgs :=
   match p_kind p with
   | KDown =>
       match pl with
-      | PGen l => map (down_one p) l
+      | PGen l => map (down_one_gen fx p) l
       | PVal _ => [Err E_NOT_GENERATOR]
       end
   | _ =>
       match pl with
-      | PVal v => [fix_output p v range]
+      | PVal v => [fix_output_gen fx p v range]
       | PGen _ => [Err E_NOT_ARRAY]          (* len(generator) raises TypeError in dict_to_rec *)
       end
   end.
+
+(* the model of the code /repo currently carries *)
+Definition fix_output_single := fix_output_single_gen REPAIRED_F1F2.
+Definition fix_each := fix_each_gen REPAIRED_F1F2.
+Definition fix_output := fix_output_gen REPAIRED_F1F2.
+Definition down_one := down_one_gen REPAIRED_F1F2.
+Definition do_compute_out := do_compute_out_gen REPAIRED_F1F2.
 
 (* ------------------------------------------------------------------------------------------ *)
 (* LoopPlugin.compute and CutPlugin.compute (single output)                                    *)
